@@ -12,39 +12,6 @@
 import Proofs.SysEvents
 namespace Hap.Sys
 
-theorem run_append (c : Cfg) (s : St) (t1 t2 : List Ev) :
-    (run c s (t1 ++ t2)).1 = (run c (run c s t1).1 t2).1 := by
-  induction t1 generalizing s with
-  | nil => rfl
-  | cons e es ih => simp only [List.cons_append, run]; exact ih _
-
-theorem reuseOK_append (c : Cfg) (s : St) (t1 t2 : List Ev) :
-    ReuseOK c s (t1 ++ t2) ↔ ReuseOK c s t1 ∧ ReuseOK c (run c s t1).1 t2 := by
-  induction t1 generalizing s with
-  | nil => simp [ReuseOK, run]
-  | cons e es ih =>
-    simp only [List.cons_append, reuseOK_cons, run, ih]
-    constructor
-    · rintro ⟨h1, h2, h3⟩; exact ⟨⟨h1, h2⟩, h3⟩
-    · rintro ⟨⟨h1, h2⟩, h3⟩; exact ⟨h1, h2, h3⟩
-
-/-- what the accessory may still hold for a peer address -/
-def holdsNothingFor (s : St) (a : Addr) : Prop :=
-  (∀ x, ¬ subscribed s x a) ∧ s.prepared a = none ∧ s.reg a = none
-
-theorem clean_of_allLost (s : St) (a : Addr) (hA : InvA s) (hC : CleanInv s) (h : allLost s a) :
-    holdsNothingFor s a := by
-  obtain ⟨g1, g2⟩ := hC a h
-  refine ⟨fun x hx => ?_, g2, ?_⟩
-  · simp [subscribed, g1 x] at hx
-  · cases hr : s.reg a with
-    | none => rfl
-    | some q =>
-      obtain ⟨q1, q2, q3⟩ := hA.reg_ok a q hr
-      have hl := h q q1 q2
-      have := hA.lost_closing q hl
-      simp_all
-
 /-- **C13_clean (state form).** In every reachable state, for every protocol object `p` whose loss
     has been processed: the registry does not map to `p`; the subscription table has no empty
     entry; and as long as nobody has reconnected from `p`'s address (all connections from it are
